@@ -49,6 +49,8 @@ def run(chk):
     c = [sp.Symbol(f"c{i}", real=True) for i in range(3)]
     r2 = X**2 + Y**2 + Z**2
 
+    _tasks = []
+
     def sec_0():
         fk = chk.function(MODC, "ConvexPolyhedron._calculate_signed_volume")
 
@@ -60,7 +62,7 @@ def run(chk):
             r, vol = p.value
             _cert(chk, "signed_volume:post", fk, p.pc, ex(r), PS.solid_moment(1), replay=replay_measure("volume"))
             chk.prove_eq("signed_volume:caches_abs", fk, p.pc, ex(vol), sp.Abs(ex(r)))
-    chk.section("calculate_signed_volume", "coxeter.shapes.convex_polyhedron::ConvexPolyhedron", sec_0)
+    _tasks.append(("calculate_signed_volume", lambda c_, f_=sec_0: f_()))
 
     def sec_1():
         fk = chk.function(MODC, "ConvexPolyhedron._find_triangle_array_area")
@@ -85,7 +87,7 @@ def run(chk):
             ok = sigma.is_zero(ex(r) - sum_over(PS.K, tri_area)) and sigma.is_zero(ex(area) - ex(r))
             chk.record("surface_area:post", fk, "proved" if ok else "refuted", "sigma-normal-form", model={},
                        replay=replay_measure("surface_area"))
-    chk.section("triangle_areas_surface_area", "coxeter.shapes.convex_polyhedron::ConvexPolyhedron", sec_1)
+    _tasks.append(("triangle_areas_surface_area", lambda c_, f_=sec_1: f_()))
 
     def sec_2():
         for member, field, spec in (("volume", "_volume", PS.solid_moment(1)),
@@ -110,7 +112,7 @@ def run(chk):
                     chk.record(f"{member}[get]:post[{'xyz'[i]}]", fkk,
                                "proved" if sigma.is_zero(ex(p.value[i]) - spec) else "refuted", "sigma-normal-form",
                                model={}, replay=replay_measure("centroid"))
-    chk.section("getters_return_the_cached_fields_inv", "coxeter.shapes.convex_polyhedron::ConvexPolyhedron", sec_2)
+    _tasks.append(("getters_return_the_cached_fields_inv", lambda c_, f_=sec_2: f_()))
 
     def sec_3():
         fk = chk.function(MODC, "ConvexPolyhedron._centroid_from_triangulated_surface")
@@ -126,7 +128,7 @@ def run(chk):
                 # centroid_i * volume  ==  M[x_i]      (volume is the cached M[1] by Inv)
                 _cert(chk, f"centroid:stokes[{'xyz'[i]}]", fk, p.pc, sigma.cancel_sums(ex(cen[i]) * ex(vol)),
                       PS.solid_moment(COORD[i]), replay=replay_measure("centroid"))
-    chk.section("centroid_from_the_surface_curl_formula", "coxeter.shapes.convex_polyhedron::ConvexPolyhedron", sec_3)
+    _tasks.append(("centroid_from_the_surface_curl_formula", lambda c_, f_=sec_3: f_()))
 
     def sec_4():
         fk = chk.function(MODC, "ConvexPolyhedron._compute_inertia_tensor")
@@ -145,7 +147,7 @@ def run(chk):
                           replay=replay_measure("inertia_tensor"))
                     if i != j:
                         chk.prove_eq(f"inertia:symmetric[{'xyz'[i]}{'xyz'[j]}]", fk, p.pc, ex(it[i, j]), ex(it[j, i]))
-    chk.section("inertia_tensor_about_the_centroid", "coxeter.shapes.convex_polyhedron::ConvexPolyhedron", sec_4)
+    _tasks.append(("inertia_tensor_about_the_centroid", lambda c_, f_=sec_4: f_()))
 
     def sec_5():
         fk = chk.function("coxeter.shapes.utils", "translate_inertia_tensor")
@@ -165,7 +167,7 @@ def run(chk):
                 for j in range(3):
                     spec = J[i][j] + m * ((dd if i == j else 0) - d[i] * d[j])
                     chk.prove_eq(f"translate_inertia_tensor:post[{i}{j}]", fk, p.pc, ex(out[i, j]), spec)
-    chk.section("translate_inertia_tensor_parallel_axis", "coxeter.shapes.convex_polyhedron::ConvexPolyhedron", sec_5)
+    _tasks.append(("translate_inertia_tensor_parallel_axis", lambda c_, f_=sec_5: f_()))
 
     def sec_6():
         # callee contracts: _compute_inertia_tensor returns M[h_ij(. - c)] with c = self.centroid;
@@ -205,7 +207,7 @@ def run(chk):
                     h = (r2 if i == j else 0) - COORD[i] * COORD[j]
                     chk.prove_eq(f"inertia_tensor:post[{i}{j}]", fk, p.pc, ex(out[i, j]), abstract(h),
                                  replay=replay_measure("inertia_tensor"))
-    chk.section("inertia_tensor_about_the_origin", "coxeter.shapes.convex_polyhedron::ConvexPolyhedron", sec_6)
+    _tasks.append(("inertia_tensor_about_the_origin", lambda c_, f_=sec_6: f_()))
 
     def sec_7():
         fk = chk.function(MODC, "ConvexPolyhedron._find_simplex_equations")
@@ -225,7 +227,9 @@ def run(chk):
             chk.prove_eq("simplex_equations:unit", fk, p.pc, E[0]**2 + E[1]**2 + E[2]**2, 1)
             for nm, P in (("a", A), ("b", B), ("c", C)):
                 chk.prove_eq(f"simplex_equations:contains[{nm}]", fk, p.pc, PS.dot(E[:3], P) + E[3], 0)
-    chk.section("plane_equations_of_the_simplices", "coxeter.shapes.convex_polyhedron::ConvexPolyhedron", sec_7)
+    _tasks.append(("plane_equations_of_the_simplices", lambda c_, f_=sec_7: f_()))
+
+    chk.run_parallel(_tasks)
 
     # ---------------------------------------------------------------- canaries
     fk = chk.function(MODC, "ConvexPolyhedron._centroid_from_triangulated_surface")
